@@ -606,12 +606,16 @@ class ListenerItem(ListenerBase):
         )
 
         if remove:
-            if (name not in object.__dict__) and (
-                object.base_trait(name).type == "trait"
+            trait = object.trait(name)
+            if (
+                (name not in object.__dict__)
+                and (trait is not None)
+                and (trait.type == "trait")
             ):
-                # The value has not been created yet, so nothing is hooked up
-                # below it: do not run the default value machinery (user code)
-                # just to unhook nothing.
+                # An attribute stored on the object itself (not a property,
+                # delegate or event) whose value has not been created yet:
+                # nothing is hooked up below it, so do not run the default
+                # value machinery (user code) just to unhook nothing.
                 return None
             return next.unregister(getattr(object, name))
 
